@@ -11,8 +11,8 @@ def run(rep, tier, seed):
     reps = 2 if tier == 'quick' else 5
     total = 0; hist = set(); skipped = {}; samples = []
     for p in ps:
-        for r in range(reps):
-            try: fails, n, trace = T.history_contract(p, rng, L)
+        for r in range(reps + len(T.SCENARIOS)):
+            try: fails, n, trace = T.history_contract(p, rng, L, script=(T.SCENARIOS[r - reps] if r >= reps else None))
             except Exception as e:
                 k = 'not-recordable:' + type(e).__name__; skipped[k] = skipped.get(k, 0) + 1; break
             total += n; hist.add((p.name, tuple(trace)))
@@ -22,7 +22,7 @@ def run(rep, tier, seed):
                               'after history %s the call %s differs from the same call on a freshly recorded graph (%s)' % (f.get('trace'), f.get('call'), f.get('error', 'values differ')),
                               {'kind': 'history', 'program': p.describe(), **f})
     rep.add_bounded('call histories', total, len(hist),
-                    'random histories over {forward evaluation (UTPM with D in 1..3, P in 1..2, or ndarray), reverse sweep with a fresh random seed (several per forward), driver call, recording + evaluating a second graph, repetition of the previous call}; every call is re-run on a graph freshly recorded at another point and the results must agree to 1e-12; distinct = distinct (program, history) pairs',
+                    'scripted scenario histories (several sweeps after one forward; real -> complex -> real with identical (D,P); changing (D,P); drivers in between; second graph in between) and random histories over {forward evaluation (UTPM with D in 1..3, P in 1..2, real or complex coefficients, same or different (D,P) as before, or ndarray), reverse sweep with a fresh random seed (several per forward), driver call, recording + evaluating a second graph, repetition of the previous call}; every call is re-run on a graph freshly recorded at another point and the results must agree to 1e-12; distinct = distinct (program, history) pairs',
                     samples, 'history length <= %d, %d histories per program, programs <= %d ops' % (L, reps, 4 if tier == 'quick' else 6))
     rep.extra['skipped'] = skipped
     rep.extra['explanation'] = 'whole-history property: outside what per-call contracts decide (DESIGN 13); the two mechanisms by which state can leak (a pullback overwriting a forward value; buffer contents saved at record time) are also covered per call by C14/C03'
